@@ -56,7 +56,7 @@ def _accepted() -> set:
     if os.environ.get("VERIF_KF_OFF") == "1":
         return set()
     try:
-        kf = json.loads(pathlib.Path("/verif/known_findings.json").read_text())
+        kf = json.loads((pathlib.Path(__file__).resolve().parents[1] / "known_findings.json").read_text())
     except OSError:
         return set()
     return {f["label"] for f in kf.get("findings", []) if f.get("engine") == "C"}
